@@ -56,6 +56,7 @@ type obsRecord struct {
 	How       string   `json:"how"`
 	Problems  []string `json:"problems,omitempty"`
 	Written   []string `json:"written,omitempty"`
+	Adapter   string   `json:"adapter,omitempty"`
 	Threads   float64  `json:"threads"`
 	MemGB     float64  `json:"mem_gb"`
 	VMemGB    float64  `json:"vmem_gb"`
@@ -119,11 +120,18 @@ func exists(p string) bool { _, err := os.Lstat(p); return err == nil }
 
 func safeName(key string) string { return strings.ReplaceAll(key, "/", "%2F") }
 
+// given: what a stage written in another language was handed by its adapter
+// (nil: read the metadata files, as a stage on the Go adapter does).
+var given *pyRequest
+
 // body evaluates the stage function for this job.
 func body(md *core.Metadata, phase string) (*progen.StageResult, string, error) {
 	var argsRaw json.RawMessage
 	argsText := ""
-	if b, err := os.ReadFile(md.MetadataFilePath(core.ArgsFile)); err == nil {
+	if given != nil {
+		argsRaw = given.Args
+		argsText = string(given.Args)
+	} else if b, err := os.ReadFile(md.MetadataFilePath(core.ArgsFile)); err == nil {
 		argsRaw = b
 		argsText = string(b)
 	} else {
@@ -136,12 +144,25 @@ func body(md *core.Metadata, phase string) (*progen.StageResult, string, error) 
 		rec.Args = "UNPARSEABLE: " + argsText
 	}
 	io := &progen.StageIO{Stage: stage, Phase: phase, Args: args, FilesPath: md.FilesPath()}
-	if b, err := os.ReadFile(md.MetadataFilePath(core.OutsFile)); err == nil {
+	if given != nil {
+		if t, e := progen.ParseJSON(given.Outs); e == nil {
+			io.OutsTemplate = t
+		}
+		if phase == "join" {
+			rec.ChunkDefs, rec.ChunkOuts = string(given.ChunkDefs), string(given.ChunkOuts)
+			if v, e := progen.ParseJSON(given.ChunkDefs); e == nil && v.K == progen.VArr {
+				io.ChunkDefs = v.A
+			}
+			if v, e := progen.ParseJSON(given.ChunkOuts); e == nil && v.K == progen.VArr {
+				io.ChunkOuts = v.A
+			}
+		}
+	} else if b, err := os.ReadFile(md.MetadataFilePath(core.OutsFile)); err == nil {
 		if t, e := progen.ParseJSON(b); e == nil {
 			io.OutsTemplate = t
 		}
 	}
-	if phase == "join" {
+	if phase == "join" && given == nil {
 		if b, err := os.ReadFile(md.MetadataFilePath(core.ChunkDefsFile)); err == nil {
 			rec.ChunkDefs = string(b)
 			if v, e := progen.ParseJSON(b); e == nil && v.K == progen.VArr {
@@ -239,8 +260,16 @@ func prologue(md *core.Metadata, phase string) string {
 	rec.FilesPath = md.FilesPath()
 	rec.Stage = filepath.Base(os.Args[0])
 	rec.Uniq = filepath.Base(os.Args[len(os.Args)-1])
+	if given != nil {
+		rec.Stage = filepath.Base(given.Argv[1])
+		rec.Uniq = filepath.Base(given.Argv[len(given.Argv)-1])
+		rec.Adapter = "python"
+	}
 	rec.Key = uniqRe.ReplaceAllString(rec.Uniq, "") + "." + phase
 	ji := adapter.GetJobInfo()
+	if given != nil {
+		md.ReadInto(core.JobInfoFile, ji)
+	}
 	rec.Threads, rec.MemGB, rec.VMemGB = ji.Threads, ji.MemGB, ji.VMemGB
 	if f, err := os.Open(filepath.Join(ctl, "stages.gob")); err == nil {
 		if err := gob.NewDecoder(f).Decode(&prog); err != nil {
@@ -271,6 +300,10 @@ func prologue(md *core.Metadata, phase string) string {
 	}
 	fault := readFault(rec.Key)
 	rec.Fault = fault
+	if given != nil {
+		// process-level manifestations are performed by the python module
+		return fault
+	}
 	switch fault {
 	case "exit1", "kill9", "segv", "abrt", "kill-monitor", "errors-nojournal":
 		die(fault)
@@ -352,6 +385,77 @@ func mainOrJoin(phase string) adapter.MainFunc {
 	}
 }
 
+// pyRequest is what pystages/<NAME>/__init__.py sends on stdin.
+type pyRequest struct {
+	Argv      []string        `json:"argv"` // martian_shell.py <module> <phase> <md> <files> <run file>
+	Args      json.RawMessage `json:"args"`
+	Outs      json.RawMessage `json:"outs"`
+	ChunkDefs json.RawMessage `json:"chunk_defs"`
+	ChunkOuts json.RawMessage `json:"chunk_outs"`
+}
+
+type pyResponse struct {
+	Fault  string          `json:"fault,omitempty"`
+	Chunks json.RawMessage `json:"chunks,omitempty"`
+	Outs   json.RawMessage `json:"outs,omitempty"`
+	Error  string          `json:"error,omitempty"`
+}
+
+// pyEval serves a stage written in python: the module hands over what the
+// python adapter gave it, this process evaluates the stage function (and
+// writes the files), the module returns the result through the adapter.
+func pyEval() {
+	var req pyRequest
+	if err := json.NewDecoder(os.Stdin).Decode(&req); err != nil || len(req.Argv) < 6 {
+		fmt.Println(`{"error": "vstage: bad request"}`)
+		return
+	}
+	given = &req
+	n := len(req.Argv)
+	phase := req.Argv[n-4]
+	md := core.NewMetadataRunWithJournalPath(filepath.Base(req.Argv[n-1]), req.Argv[n-3], req.Argv[n-2],
+		filepath.Dir(req.Argv[n-1]), phase)
+	var resp pyResponse
+	fault := prologue(md, phase)
+	switch fault {
+	case "":
+	case "no-outs":
+	default:
+		// the python module acts it out
+		resp.Fault = fault
+		rec.How = fault
+		writeObs()
+		b, _ := json.Marshal(&resp)
+		os.Stdout.Write(b)
+		return
+	}
+	r, full, err := body(md, phase)
+	switch {
+	case err != nil:
+		resp.Error = err.Error()
+		rec.How = "errors"
+	case phase == "split":
+		chunks := make([]json.RawMessage, 0, len(r.Chunks))
+		for _, c := range r.Chunks {
+			chunks = append(chunks, json.RawMessage(c.JSON()))
+		}
+		resp.Chunks, _ = json.Marshal(chunks)
+		rec.How = "complete"
+	default:
+		if fault != "no-outs" {
+			resp.Outs = json.RawMessage(full)
+		}
+		rec.How = "complete"
+	}
+	writeObs()
+	b, _ := json.Marshal(&resp)
+	os.Stdout.Write(b)
+}
+
 func main() {
+	if len(os.Args) > 1 && os.Args[1] == "--pyeval" {
+		pyEval()
+		return
+	}
 	adapter.RunStage(split, mainOrJoin("main"), mainOrJoin("join"))
 }
